@@ -226,9 +226,38 @@ def patternsInChunks : List (List Decl) → Nat → List P
   | [], _ => []
   | c :: cs, e => patternsIn c e ++ patternsInChunks cs e
 
-def Schema.patterns (S : Schema) (e : Nat) : List P := patternsInChunks S.elems.chunks e
+/-- does the name class contain `<anyName/>`? -/
+def ncAny : Nat → NC → Bool
+  | 0, _ => false
+  | _+1, .name _ => false
+  | _+1, .any => true
+  | f+1, .choice l => l.any fun n => ncAny f n
 
-def Schema.isElem (S : Schema) (e : Nat) : Bool := !(S.patterns e).isEmpty
+def anyPatternsIn : List Decl → List P
+  | [] => []
+  | d :: ds => if ncAny NCFUEL d.nc then d.content :: anyPatternsIn ds else anyPatternsIn ds
+
+def anyPatternsInChunks : List (List Decl) → List P
+  | [] => []
+  | c :: cs => anyPatternsIn c ++ anyPatternsInChunks cs
+
+/-- content patterns of the declarations that *name* element `e` -/
+def Schema.namedPatterns (S : Schema) (e : Nat) : List P := patternsInChunks S.elems.chunks e
+
+/-- content patterns of the `<anyName/>` declarations: the "islands" of the schema (the content of
+    math:math, of xforms:model, of office:meta's foreign metadata …), where any element may occur -/
+def Schema.anyPatterns (S : Schema) : List P := anyPatternsInChunks S.elems.chunks
+
+/-- the declarations an element named `e` is judged by: the ones that name it; an element that no
+    declaration names can only occur where an `<anyName/>` declaration matches it, and is judged
+    by those.  (A named ODF element could also sit inside an island; the API cannot know the
+    context, and C06 takes the ODF declarations for it.) -/
+def Schema.patterns (S : Schema) (e : Nat) : List P :=
+  let n := S.namedPatterns e
+  if n.isEmpty then S.anyPatterns else n
+
+/-- is `e` declared by name? -/
+def Schema.isElem (S : Schema) (e : Nat) : Bool := !(S.namedPatterns e).isEmpty
 def Schema.mayElems (S : Schema) (e : Nat) : List Nat := (S.patterns e).flatMap (Grammar.mayElems S FUEL)
 def Schema.mayText (S : Schema) (e : Nat) : Bool := (S.patterns e).any (Grammar.mayText S FUEL)
 def Schema.mayAttrs (S : Schema) (e : Nat) : List Nat := (S.patterns e).flatMap (Grammar.mayAttrs S FUEL)
